@@ -15,16 +15,22 @@ import Nstd.Generated.SyncMonitorOrder
   model's program counter stands for, and beginning an API call enters the table at its entry.  A change of one of those
   C++ bodies that changes the control flow changes the generated table and breaks these proofs; a rewrite with the same
   control flow (other loop form, locals, early returns) gives the same table.
-  Not covered by the tables: the EFFECT of a POSIX call on mutex / wait set / clock (ASSUMED, Posix.lean), the deadline
-  arithmetic (Generated/SyncDeadline), Semaphore (its functions are single calls; the loops of wait(timeout) are
-  shape-pinned, Generated/SyncSemPoll), Thread.
+  Thread::start (both overloads) / join / ~Thread are covered the same way, with the handle `thread` in the role of the flag.
+  Not covered by the tables: the EFFECT of a POSIX call on mutex / wait set / clock / thread table (ASSUMED, Posix.lean), the
+  deadline arithmetic (Generated/SyncDeadline), Semaphore (its functions are single calls; the loops of wait(timeout) are
+  shape-pinned, Generated/SyncSemPoll).
 -/
 namespace Nstd.Sync
 open Nstd.Sync.Cfg Nstd.Generated
 
-def retVal : Option Bool → Val
-  | none => .unit
-  | some b => .bool b
+/-- the value a thread sees returned; `r` = what pthread_join handed over -/
+def Cfg.RetV.toVal (r : Nat) : RetV → Val
+  | .void => .unit
+  | .bool b => .bool b
+  | .zero => .num 0
+  | .joined => .num r
+
+abbrev retVal (v : RetV) : Val := v.toVal 0
 
 /-! ## Mutex -/
 
@@ -54,7 +60,7 @@ theorem mutex_step_is_translated_code (s : Mutex.St) (t : Tid) (s' : Mutex.St) :
       f.after n (Mutex.result s t) true = some e ∧ e.store = none ∧
       ∃ v, e.next = .ret v ∧ s'.pc t = .idle ∧ s'.ret t = some (retVal v)) ∧
     (∀ op, Mutex.step s t (.call op) = some s' →
-      (Mutex.fnOf op).entry true = some ⟨none, .node 0⟩ ∧ (Mutex.fnOf op).entry false = some ⟨none, .node 0⟩ ∧
+      (Mutex.fnOf op).entry true = some ⟨none, false, .node 0⟩ ∧ (Mutex.fnOf op).entry false = some ⟨none, false, .node 0⟩ ∧
       Mutex.at (s'.pc t) = some (Mutex.fnOf op, 0)) := by
   refine ⟨?_, ?_⟩
   · intro alt hs
@@ -65,15 +71,15 @@ theorem mutex_step_is_translated_code (s : Mutex.St) (t : Tid) (s' : Mutex.St) :
       · simp at hs
       · split at hs <;> simp at hs
         subst hs
-        exact ⟨_, _, _, rfl, rfl, by simp [Mutex.result, hpc]; rfl, by simp [Mutex.result, hpc]; rfl, rfl, none, rfl, by simp, by simp [retVal]⟩
+        exact ⟨_, _, _, rfl, rfl, by simp [Mutex.result, hpc]; rfl, by simp [Mutex.result, hpc]; rfl, rfl, .void, rfl, by simp, by simp [retVal, Cfg.RetV.toVal]⟩
       · split at hs <;> simp at hs <;> subst hs <;> rename_i hc
-        · exact ⟨_, _, _, rfl, rfl, by simp [Mutex.result, hpc, hc]; rfl, by simp [Mutex.result, hpc, hc]; rfl, rfl, some true, rfl,
-            by simp, by simp [retVal]⟩
-        · exact ⟨_, _, _, rfl, rfl, by simp [Mutex.result, hpc, hc]; rfl, by simp [Mutex.result, hpc, hc]; rfl, rfl, some false, rfl,
-            by simp, by simp [retVal]⟩
+        · exact ⟨_, _, _, rfl, rfl, by simp [Mutex.result, hpc, hc]; rfl, by simp [Mutex.result, hpc, hc]; rfl, rfl, .bool true, rfl,
+            by simp, by simp [retVal, Cfg.RetV.toVal]⟩
+        · exact ⟨_, _, _, rfl, rfl, by simp [Mutex.result, hpc, hc]; rfl, by simp [Mutex.result, hpc, hc]; rfl, rfl, .bool false, rfl,
+            by simp, by simp [retVal, Cfg.RetV.toVal]⟩
       · split at hs <;> simp at hs
         subst hs
-        exact ⟨_, _, _, rfl, rfl, by simp [Mutex.result, hpc]; rfl, by simp [Mutex.result, hpc]; rfl, rfl, none, rfl, by simp, by simp [retVal]⟩
+        exact ⟨_, _, _, rfl, rfl, by simp [Mutex.result, hpc]; rfl, by simp [Mutex.result, hpc]; rfl, rfl, .void, rfl, by simp, by simp [retVal, Cfg.RetV.toVal]⟩
   · intro op hs
     simp only [Mutex.step] at hs
     split at hs
@@ -169,7 +175,7 @@ theorem signal_step_is_translated_code (s : Signal.St) (t : Tid) (s' : Signal.St
           | .node m => Signal.at (s'.pc t) = some (f, m) ∧ (s'.pc t).dlOf = (s.pc t).dlOf
           | .ret v => s'.pc t = .idle ∧ s'.ret t = some (retVal v)) ∧
     (∀ op, Signal.step s t (.call op) = some s' →
-      (Signal.fnOf op).entry s.flag = some ⟨none, .node 0⟩ ∧ Signal.at (s'.pc t) = some (Signal.fnOf op, 0) ∧ s'.flag = s.flag) := by
+      (Signal.fnOf op).entry s.flag = some ⟨none, false, .node 0⟩ ∧ Signal.at (s'.pc t) = some (Signal.fnOf op, 0) ∧ s'.flag = s.flag) := by
   refine ⟨?_, ?_⟩
   · intro alt hs
     simp only [Signal.step] at hs
@@ -179,20 +185,20 @@ theorem signal_step_is_translated_code (s : Signal.St) (t : Tid) (s' : Signal.St
       simp only [hpc, Signal.goto, Signal.done] at hs
       (repeat' split at hs) <;> simp at hs <;> (try subst hs) <;>
         (refine ⟨_, _, rfl, ?_, ?_⟩ <;> by_cases hf : s.flag = true <;>
-          simp_all [Signal.at, Signal.callOf, Signal.completes, Fn.callAt, Fn.after, Signal.Pc.dlOf, retVal, SyncCfg.signal_set,
+          simp_all [Signal.at, Signal.callOf, Signal.completes, Fn.callAt, Fn.after, Signal.Pc.dlOf, retVal, Cfg.RetV.toVal, SyncCfg.signal_set,
             SyncCfg.signal_reset, upd])
     | wLock dl | wEnter dl | wBlocked dl =>
       simp only [hpc, Signal.loopHead, Signal.goto, Signal.done] at hs
       cases dl <;> (repeat' split at hs) <;> simp at hs <;> (try subst hs) <;>
         (refine ⟨_, _, rfl, ?_, ?_⟩ <;> by_cases hf : s.flag = true <;>
-          simp_all [Signal.at, Signal.callOf, Signal.completes, Signal.waitFn, Fn.callAt, Fn.after, Signal.Pc.dlOf, retVal,
+          simp_all [Signal.at, Signal.callOf, Signal.completes, Signal.waitFn, Fn.callAt, Fn.after, Signal.Pc.dlOf, retVal, Cfg.RetV.toVal,
             SyncCfg.signal_wait, SyncCfg.signal_waitT, upd])
     | wUnlock r dl | wRelock dl r =>
       simp only [hpc, Signal.loopHead, Signal.goto, Signal.done] at hs
       rw [hpc] at hwf
       cases dl <;> cases r <;> (first | (exfalso; simp [Signal.PcWf] at hwf; done) | skip) <;> (repeat' split at hs) <;> simp at hs <;> (try subst hs) <;>
         (refine ⟨_, _, rfl, ?_, ?_⟩ <;> by_cases hf : s.flag = true <;>
-          simp_all [Signal.at, Signal.callOf, Signal.completes, Signal.waitFn, Fn.callAt, Fn.after, Signal.Pc.dlOf, retVal,
+          simp_all [Signal.at, Signal.callOf, Signal.completes, Signal.waitFn, Fn.callAt, Fn.after, Signal.Pc.dlOf, retVal, Cfg.RetV.toVal,
             SyncCfg.signal_wait, SyncCfg.signal_waitT, upd])
   · intro op hs
     simp only [Signal.step] at hs
@@ -257,7 +263,7 @@ theorem monitor_step_is_translated_code (s : Monitor.St) (t : Tid) (s' : Monitor
           | .node m => Monitor.at s.sigFirst (s'.pc t) = some (f, m) ∧ (s'.pc t).dlOf = (s.pc t).dlOf
           | .ret v => s'.pc t = .idle ∧ s'.ret t = some (retVal v)) ∧
     (∀ op, Monitor.step s t (.call op) = some s' →
-      (Monitor.fnOf op).entry s.flag = some ⟨none, .node 0⟩ ∧ Monitor.at s.sigFirst (s'.pc t) = some (Monitor.fnOf op, 0) ∧
+      (Monitor.fnOf op).entry s.flag = some ⟨none, false, .node 0⟩ ∧ Monitor.at s.sigFirst (s'.pc t) = some (Monitor.fnOf op, 0) ∧
       s'.flag = s.flag ∧ s'.sigFirst = s.sigFirst) := by
   refine ⟨?_, ?_⟩
   · intro alt hs
@@ -268,19 +274,19 @@ theorem monitor_step_is_translated_code (s : Monitor.St) (t : Tid) (s' : Monitor
       simp only [hpc, Monitor.afterSignal, Monitor.goto, Monitor.done] at hs
       (repeat' split at hs) <;> simp at hs <;> (try subst hs) <;>
         (refine ⟨_, _, rfl, ?_, ?_, ?_⟩ <;> by_cases hf : s.flag = true <;>
-          simp_all [Monitor.at, Monitor.callOf, Monitor.completes, Fn.callAt, Fn.after, Monitor.Pc.dlOf, retVal, SyncCfg.monitor_set,
+          simp_all [Monitor.at, Monitor.callOf, Monitor.completes, Fn.callAt, Fn.after, Monitor.Pc.dlOf, retVal, Cfg.RetV.toVal, SyncCfg.monitor_set,
             SyncCfg.monitor_lock, SyncCfg.monitor_tryLock, SyncCfg.monitor_unlock, SyncMonitorOrder.setSignalsFirst, upd])
     | wEnter dl =>
       simp only [hpc, Monitor.goto, Monitor.done] at hs
       cases dl <;> (repeat' split at hs) <;> simp at hs <;> (try subst hs) <;>
         (refine ⟨_, _, rfl, ?_, ?_, ?_⟩ <;> by_cases hf : s.flag = true <;>
-          simp_all [Monitor.at, Monitor.callOf, Monitor.completes, Monitor.waitFn, Fn.callAt, Fn.after, Monitor.Pc.dlOf, retVal,
+          simp_all [Monitor.at, Monitor.callOf, Monitor.completes, Monitor.waitFn, Fn.callAt, Fn.after, Monitor.Pc.dlOf, retVal, Cfg.RetV.toVal,
             SyncCfg.monitor_wait, SyncCfg.monitor_waitT, upd])
     | wBlocked dl sw =>
       simp only [hpc, Monitor.goto, Monitor.done] at hs
       cases dl <;> (repeat' split at hs) <;> simp at hs <;> (try subst hs) <;>
         (refine ⟨_, _, rfl, ?_, ?_, ?_⟩ <;> by_cases hf : s.flag = true <;>
-          simp_all [Monitor.at, Monitor.callOf, Monitor.completes, Monitor.waitFn, Fn.callAt, Fn.after, Monitor.Pc.dlOf, retVal,
+          simp_all [Monitor.at, Monitor.callOf, Monitor.completes, Monitor.waitFn, Fn.callAt, Fn.after, Monitor.Pc.dlOf, retVal, Cfg.RetV.toVal,
             SyncCfg.monitor_wait, SyncCfg.monitor_waitT, upd])
     | wRelock dl r =>
       have hwf' := hwf dl
@@ -288,7 +294,7 @@ theorem monitor_step_is_translated_code (s : Monitor.St) (t : Tid) (s' : Monitor
       cases dl <;> cases r <;> (first | (exfalso; simp [hpc] at hwf'; done) | skip) <;> (repeat' split at hs) <;> simp at hs <;>
         (try subst hs) <;>
         (refine ⟨_, _, rfl, ?_, ?_, ?_⟩ <;> by_cases hf : s.flag = true <;>
-          simp_all [Monitor.at, Monitor.callOf, Monitor.completes, Monitor.waitFn, Fn.callAt, Fn.after, Monitor.Pc.dlOf, retVal,
+          simp_all [Monitor.at, Monitor.callOf, Monitor.completes, Monitor.waitFn, Fn.callAt, Fn.after, Monitor.Pc.dlOf, retVal, Cfg.RetV.toVal,
             SyncCfg.monitor_wait, SyncCfg.monitor_waitT, upd])
   · intro op hs
     simp only [Monitor.step] at hs
@@ -297,6 +303,78 @@ theorem monitor_step_is_translated_code (s : Monitor.St) (t : Tid) (s' : Monitor
       cases op <;> by_cases hf : s.flag = true <;>
         simp [hf, Monitor.fnOf, Monitor.at, Monitor.waitFn, Fn.entry, upd, SyncCfg.monitor_set, SyncCfg.monitor_lock,
           SyncCfg.monitor_tryLock, SyncCfg.monitor_unlock, SyncCfg.monitor_wait, SyncCfg.monitor_waitT]
+    · simp at hs
+
+/-! ## Thread (Thread.cpp, Thread.hpp): the handle `thread` of Thread object `j` plays the role of the flag -/
+
+/-- table, node and Thread object of a program counter; `create j none` = the pthread_create of the member overload -/
+def Thr.at : Thr.Pc → Option (Fn × Nat × Tid)
+  | .idle => none
+  | .create j b => some (if b.isSome then SyncCfg.thread_start else SyncCfg.thread_mstart, 0, j)
+  | .join j => some (SyncCfg.thread_join, 0, j)
+  | .dtor j => some (SyncCfg.thread_dtor, 0, j)
+
+def Thr.callOf : Thr.Pc → PCall
+  | .create _ _ => .threadCreate
+  | _ => .threadJoin
+
+/-- table, Thread object and (member overload) the functor an API call would store -/
+def Thr.fnOf : Thr.Op → Fn × Tid × Nat
+  | .start j _ => (SyncCfg.thread_start, j, 0)
+  | .mstart j k => (SyncCfg.thread_mstart, j, k)
+  | .join j => (SyncCfg.thread_join, j, 0)
+  | .dtor j => (SyncCfg.thread_dtor, j, 0)
+
+/-- Every step of the Thread system follows the tables translated from the current Thread.cpp / Thread.hpp (`start(obj, member)`
+    with `start(proc, param)` inlined, `~Thread` with `join()` inlined).
+    * A step that performs the pending `pthread_create` (alternative 0 = success, 1 = failure, ASSUMED) or `pthread_join`: the
+      handle of the Thread object is set / cleared / left exactly as the table's edge says, the stored functor is untouched,
+      and the call returns the table's value (`joined` = the value of the finished thread, ASSUMED pthread_join).
+    * Beginning an API call runs the table's entry edge for the current handle: on an attached object `start` (both overloads)
+      returns false WITHOUT storing the functor (`e.func = false`: the order repaired by fixes/sync/0002), `join` on a detached
+      object returns 0, `~Thread` of a detached object returns; otherwise the thread arrives at the table's first POSIX call,
+      and the member overload has stored its functor (`e.func = true`) on the way. -/
+theorem thread_step_is_translated_code (val : Nat → Nat) (s : Thr.St) (t : Tid) (s' : Thr.St) :
+    (∀ alt, Thr.step val s t (.api (.run alt)) = some s' → ∃ f n j, Thr.at (s.pc t) = some (f, n, j) ∧
+      f.callAt n = some (Thr.callOf (s.pc t)) ∧
+      ∃ e, f.after n (decide (alt = 0)) (s.handle j) = some e ∧ e.func = false ∧ s'.func = s.func ∧
+        s'.handle j = e.store.getD (s.handle j) ∧ (∀ i, i ≠ j → s'.handle i = s.handle i) ∧
+        ∃ v, e.next = .ret v ∧ s'.pc t = .idle ∧ ∃ r, s'.ret t = some (v.toVal r) ∧ (v = .joined → s.status j = .finished r)) ∧
+    (∀ op, Thr.step val s t (.api (.call op)) = some s' →
+      ∃ e, (Thr.fnOf op).1.entry (s.handle (Thr.fnOf op).2.1) = some e ∧ e.store = none ∧ s'.handle = s.handle ∧
+        s'.func = (if e.func then upd s.func (Thr.fnOf op).2.1 (Thr.fnOf op).2.2 else s.func) ∧
+        match e.next with
+        | .node m => Thr.at (s'.pc t) = some ((Thr.fnOf op).1, m, (Thr.fnOf op).2.1)
+        | .ret v => s'.pc t = .idle ∧ s'.ret t = some (v.toVal 0)) := by
+  refine ⟨?_, ?_⟩
+  · intro alt hs
+    simp only [Thr.step] at hs
+    cases hpc : s.pc t with
+    | idle => simp [hpc] at hs
+    | create j b =>
+      simp only [hpc, Thr.done] at hs
+      cases b <;> (repeat' split at hs) <;> simp at hs <;> (try subst hs) <;>
+        (refine ⟨_, _, j, rfl, ?_, ?_⟩ <;> by_cases hh : s.handle j = true <;>
+          simp_all [Thr.callOf, Fn.callAt, Fn.after, SyncCfg.thread_start, SyncCfg.thread_mstart, Cfg.RetV.toVal, upd] <;>
+          (intro i hi; simp [upd, hi]))
+    | join j | dtor j =>
+      simp only [hpc, Thr.done] at hs
+      split at hs
+      · simp at hs
+      · cases hst : s.status j <;> simp [hst] at hs
+        subst hs
+        rename_i ha r
+        have h0 : alt = 0 := Classical.byContradiction ha
+        subst h0
+        refine ⟨_, _, j, rfl, ?_, ?_⟩ <;> by_cases hh : s.handle j = true <;>
+          simp_all [Thr.callOf, Fn.callAt, Fn.after, SyncCfg.thread_join, SyncCfg.thread_dtor, Cfg.RetV.toVal, upd] <;>
+          (intro i hi; simp [upd, hi])
+  · intro op hs
+    simp only [Thr.step] at hs
+    split at hs
+    · cases op <;> simp only [] at hs <;> split at hs <;> simp [Thr.done] at hs <;> subst hs <;>
+        simp_all [Thr.fnOf, Thr.at, Fn.entry, SyncCfg.thread_start, SyncCfg.thread_mstart, SyncCfg.thread_join, SyncCfg.thread_dtor,
+          Cfg.RetV.toVal, upd]
     · simp at hs
 
 /-! ## over reachable states (the well-formedness hypotheses are invariants); non-vacuity -/
@@ -333,7 +411,8 @@ theorem translated_tables_have_no_other_program_points :
     SyncCfg.signal_set.nodes.length = 3 ∧ SyncCfg.signal_reset.nodes.length = 2 ∧ SyncCfg.signal_wait.nodes.length = 3 ∧
     SyncCfg.signal_waitT.nodes.length = 4 ∧ SyncCfg.monitor_lock.nodes.length = 1 ∧ SyncCfg.monitor_tryLock.nodes.length = 1 ∧
     SyncCfg.monitor_unlock.nodes.length = 1 ∧ SyncCfg.monitor_wait.nodes.length = 1 ∧ SyncCfg.monitor_waitT.nodes.length = 1 ∧
-    SyncCfg.monitor_set.nodes.length = 3 := by decide
+    SyncCfg.monitor_set.nodes.length = 3 ∧ SyncCfg.thread_start.nodes.length = 1 ∧ SyncCfg.thread_mstart.nodes.length = 1 ∧
+    SyncCfg.thread_join.nodes.length = 1 ∧ SyncCfg.thread_dtor.nodes.length = 1 := by decide
 
 /-- non-vacuity: a reachable Signal state with a waiter at its re-acquisition while the flag is set (the step completes
     pthread_cond_wait with success; the table sends it to the unlock that precedes `return true`), and a reachable Monitor
